@@ -120,7 +120,7 @@ def run_case(c):
     for i, q in enumerate(c["steps"]):
         if p is not None and q.get("reconnect"):
             # the link drops and the manager reconnects (to a possibly different device state)
-            p._comm_issue = True
+            getattr(p, "protocol_v2", p)._comm_issue = True
             labels.append("reconnect")
         w.mode_error = False
         q = dict(q, v1=bool(c.get("v1")))
